@@ -154,7 +154,7 @@ def gen_cases(c):
             for ln in {n, max(0, n - 1), n + 1, n + 50, 0}:
                 cases.append(("R", hdr(n), kind, ln))
     for _ in range(300 if not thorough else 3000):
-        n = rng.choice([rng.randint(0, 2000), rng.randint(0, 1 << 21), rng.getrandbits(64), rng.getrandbits(rng.randint(1, 64))])
+        n = rng.choice([rng.randint(0, 2000)] * 5 + [rng.randint(0, 1 << 21)] + [rng.getrandbits(64), rng.getrandbits(rng.randint(1, 64))] * 2)
         ln = rng.choice([n, n, n + rng.randint(0, 20), max(0, n - rng.randint(1, 20)), rng.randint(0, 3000)])
         cases.append(("R", hdr(n), rng.choice("jjg"), min(ln, 3 * LIMIT)))
     # --- S: ObservableState round trips ------------------------------------------------------------------
